@@ -757,6 +757,9 @@ func (f *frame) closeLoop(from, h *ssa.BasicBlock, cond *Term, st *State, measur
 	est := st.clone()
 	est.reach = cond
 	env := f.loopEnv(h, est, override)
+	env.header = func(name string) (Val, bool) {
+		return f.withState(est, func() (Val, bool) { return f.lookupVar(name, h, nil) })
+	}
 	f.useHints(fmt.Sprintf("loop %d end", f.loopOrd[h]), env)
 	for k, inv := range ls.Invariants {
 		c.oblige("invariant-preserved", fmt.Sprintf("loop%d.%d", f.loopOrd[h], k+1), c.tags, cond, env.evalBool(inv.Expr), f.pos(from.Instrs[len(from.Instrs)-1].Pos()), inv.Src)
